@@ -203,3 +203,71 @@ def c18_search(tier='quick'):
                     return {'scenario': scen, 'fault': '%s #%d of the operation fails with EIO' % (sc, k), 'outcome': rep['outcome'], 'what': '; '.join(rep['problems'])[:600]}
     c18_search.runs = runs
     return None
+
+
+C02_QUICK = ['plain-set', 'plain-put', 'plain-ensure', 'plain-promote', 'plain-set-maint', 'sharded-put-fresh']
+C02_THOROUGH = C02_QUICK + ['plain-setexisting', 'plain-putexisting', 'plain-replace', 'plain-put-fresh', 'plain-put-maint', 'sharded-set', 'sharded-ensure',
+                            'sharded-promote', 'sharded-set-maint', 'plain-ensure-fresh']
+MUTATORS = ('openat', 'write', 'fsync', 'fdatasync', 'rename', 'renameat', 'renameat2', 'link', 'linkat', 'unlink', 'unlinkat', 'utimensat', 'chmod', 'fchmod',
+            'fchmodat', 'mkdir', 'mkdirat', 'copy_file_range', 'sendfile', 'close', 'getdents64', 'statx', 'read', 'lseek')
+
+
+def c02_search(tier='quick'):
+    """Bounded stand-in for C02: the process is killed (SIGKILL injected by strace on entry to a system call) at every
+    boundary between two filesystem calls of one operation; a second process then inspects and uses the directories
+    (replay/src/c02.rs).  Returns a failing input (dict) or None."""
+    import collections, re, shutil, tempfile
+    exe = _build()
+    runs = 0
+    for scen in (C02_QUICK if tier == 'quick' else C02_THOROUGH):
+        root = tempfile.mkdtemp(prefix='kvc02_')
+        tf = tempfile.NamedTemporaryFile(prefix='kvtrace', suffix='.log', delete=False)
+        tf.close()
+        try:
+            p = subprocess.run(['strace', '-f', '-qq', '-e', 'trace=' + ','.join(MUTATORS), '-o', tf.name, exe, 'c02', 'run', root, scen],
+                               stdout=subprocess.PIPE, stderr=subprocess.PIPE, text=True, timeout=60)
+            order, before, state = [], collections.Counter(), 0
+            for ln in open(tf.name, errors='replace'):
+                m = re.match(r'^(?:\d+\s+)?(\w+)\(', ln)
+                if not m:
+                    continue
+                sc = m.group(1)
+                if '"/kv-marker/begin"' in ln:
+                    before[sc] += 1
+                    state = 1
+                    continue
+                if '"/kv-marker/end"' in ln:
+                    state = 2
+                    continue
+                if state == 0:
+                    before[sc] += 1
+                elif state == 1:
+                    before[sc] += 1
+                    order.append((sc, before[sc]))
+            if state != 2:
+                raise RuntimeError('c02: no marker region in the trace of %s (strace unavailable?): %s' % (scen, p.stderr[-300:]))
+            v = subprocess.run([exe, 'c02', 'verify', root, scen], stdout=subprocess.PIPE, stderr=subprocess.PIPE, text=True, timeout=120)
+            out = [ln for ln in v.stdout.splitlines() if ln.startswith('{')]
+            if not out or json.loads(out[-1])['problems']:
+                return {'scenario': scen, 'killed_at': None, 'what': 'the directories are not valid even after an undisturbed run: ' + (out[-1] if out else v.stderr[-300:])}
+        finally:
+            os.unlink(tf.name)
+            shutil.rmtree(root, ignore_errors=True)
+        # kill on entry to the i-th call of the operation (and once after the last one: order + end marker)
+        for i, (sc, nth) in enumerate(order):
+            runs += 1
+            root = tempfile.mkdtemp(prefix='kvc02_')
+            try:
+                subprocess.run(['strace', '-f', '-qq', '-e', 'trace=' + sc, '-e', 'inject=%s:signal=SIGKILL:when=%d' % (sc, nth), '-o', '/dev/null',
+                                exe, 'c02', 'run', root, scen], stdout=subprocess.PIPE, stderr=subprocess.PIPE, text=True, timeout=60)
+                v = subprocess.run([exe, 'c02', 'verify', root, scen], stdout=subprocess.PIPE, stderr=subprocess.PIPE, text=True, timeout=120)
+                out = [ln for ln in v.stdout.splitlines() if ln.startswith('{')]
+                if not out:
+                    return {'scenario': scen, 'killed_at': 'entry to call #%d of the operation (%s)' % (i + 1, sc), 'what': 'the verifying process died: ' + v.stderr[-300:]}
+                rep = json.loads(out[-1])
+                if rep['problems']:
+                    return {'scenario': scen, 'killed_at': 'entry to call #%d of the operation (%s)' % (i + 1, sc), 'what': '; '.join(rep['problems'])[:600]}
+            finally:
+                shutil.rmtree(root, ignore_errors=True)
+    c02_search.runs = runs
+    return None
